@@ -1317,6 +1317,31 @@ func (f *Frame) sliceInstr(x *ssa.Slice) Term {
 		hi := get(x.High, sLen(s))
 		mx := get(x.Max, sCap(s))
 		f.check("slice", x, and(sle(i64(0), lo), sle(lo, hi), sle(hi, mx), sle(mx, sCap(s))), x.X.Name()+"[:]")
+		if f.parent == nil && e.contract != nil && e.contract.Opts["cutoffsets"] != "" && x.Low != nil && x.High == nil && x.Max == nil {
+			// "opt cutoffsets yes": once s[lo:] has been checked, lo is only remembered as "some offset within s".
+			// A running position that is the sum of many decoded lengths makes every later bounds obligation depend
+			// on the whole chain of additions, which none of the solvers decides; forgetting how the offset was
+			// computed keeps each step local. Sound: the new value is constrained by a consequence of the check only.
+			cut := false
+			if bo, ok := x.Low.(*ssa.BinOp); ok && bo.Op == token.ADD {
+				// only offsets of the form a + b with both parts computed (a running position plus a decoded
+				// length); position + constant keeps its definition, later checks usually need it
+				_, c1 := bo.X.(*ssa.Const)
+				_, c2 := bo.Y.(*ssa.Const)
+				cut = !c1 && !c2
+			}
+			if cut {
+				c := e.havoc(f.name(x.Low.Name()+"_cut"), SBV64)
+				e.assume(implies(f.guard, and(sle(i64(0), c), sle(c, sLen(s)))))
+				w := e.sortOf(x.Low.Type()).bvWidth()
+				if w == 64 {
+					// on the paths that come through this check the value is the abstract offset, elsewhere unchanged
+					old := f.val(x.Low).T
+					f.vals[x.Low] = Value{T: e.define(f.name(x.Low.Name()+"_cutv"), ite(f.guard, c, old))}
+					lo = c
+				}
+			}
+		}
 		return e.define(name, mkSlice(sReg(s), bvAdd(sOff(s), lo), bvSub(hi, lo), bvSub(mx, lo)))
 	case *types.Basic: // string
 		s := f.term(x.X)
